@@ -231,11 +231,18 @@ class Runner:
         key = (shape, tuple(pre), og)
         if key not in self.clients:
             srv = self.server(shape)
-            c = open_client(srv, pre, og)
+            try:
+                c = open_client(srv, pre, og)
+            except Exception as e:      # opening with a valid hyperslab must not raise: judged, not a harness error
+                self.ctx.oracle_fail("opening the dataset with a valid hyperslab raised",
+                                     {"kind": "array", "shape": list(shape), "pre": [list(p) for p in pre], "index": "()"},
+                                     "escaped:" + err_class(e), "a dataset of shape %r" % (tuple(srv.src[pre_slices(pre)].shape),))
+                self.clients[key] = None
+                return None, None
             cshape = tuple(self.server(shape).src[pre_slices(pre)].shape)
             self.clients[key] = (c, cshape)
             self.check_open(srv, c, shape, pre, cshape)
-        return self.clients[key]
+        return self.clients[key] or (None, None)
 
     def check_open(self, srv, c, shape, pre, cshape):
         ctx = self.ctx
@@ -258,6 +265,8 @@ class Runner:
         ctx = self.ctx
         srv = self.server(shape)
         c, cshape = self.client(shape, pre, True)
+        if c is None:
+            return
         base = srv.src[pre_slices(pre)]
         case = {"kind": "array", "shape": list(shape), "pre": [list(p) for p in pre], "index": repr(idx)}
         if not in_domain(idx, cshape):
@@ -303,6 +312,8 @@ class Runner:
         ctx = self.ctx
         srv = self.server(shape)
         c, cshape = self.client(shape, pre, og)
+        if c is None:
+            return
         rank = len(shape)
         pfull = list(pre_slices(pre)) + [slice(None)] * (rank - len(pre))
         base = srv.src[tuple(pfull)]
